@@ -240,7 +240,63 @@ def run(repo, rep):
     rep.check(ok, 'C12.d', 'sequence_of_docs:shortcut-monotone-in-len', sod.where,
               'shortcut depends only on len(docs), increasing', 'the long-sequence shortcut is computed as %s' % detail, nontrivial=True)
     rep.floor('C12.d', n, 1)
+    # ---------------------------------------------------------------- C12.f the sort key compares in one step
+    # sorted() calls the key's __lt__ O(n log n) times; a comparison that wraps the members of its operands in new keys and compares
+    # those (twice each: a < b, then b < a) does work exponential in the nesting depth of tuple keys
+    from engine import roles
+    sk = m.classes.get(roles.name(repo, 'sortable_cls'))
+    n = 0
+    if sk is not None:
+        for mname, meth in sorted(sk.methods.items()):
+            n += 1
+            rec = [c for c in ast.walk(meth.node) if isinstance(c, ast.Call) and ((isinstance(c.func, ast.Name) and c.func.id == sk.name) or
+                                                                                  src(c.func) in ('type(self)', 'self.__class__'))]
+            rep.check(not rec, 'C12.f', '%s.%s:no-nested-sort-keys' % (sk.name, mname), meth.where,
+                      'a comparison of two sort keys does not create further sort keys',
+                      '%s.%s wraps parts of its operands in new %s objects (line %s) and compares those: the comparison recurses into the keys, '
+                      'with both orders tried at every level the work is exponential in the nesting depth of the keys'
+                      % (sk.name, mname, sk.name, [c.lineno for c in rec]), nontrivial=True)
+    rep.floor('C12.f', n, 2)
     rep.count(len(cone))
+
+
+def shortcut_counts_elements_only(repo, rep, rule):
+    """C06: the printers force a break on their own for very long sequences only - a threshold on the *number* of elements (more
+    than 50: such a sequence cannot fit 150 columns whatever its elements are).  A threshold that looks at the elements (their
+    widths, their kinds) breaks sequences that fit on a wide page.  Every ordering comparison of sequence_of_docs that involves the
+    element list must be linear in len(docs) alone.  Returns the number of comparisons examined."""
+    m = repo.module('prettyprinter')
+    sod = m.funcs.get('sequence_of_docs')
+    if sod is None:
+        raise AnalysisError('sequence_of_docs vanished')
+    defs = {k_: v[0] for k_, v in single_defs(sod.node).items() if len(v) == 1}
+    n = 0
+    for p in ast.walk(sod.node):
+        if not (isinstance(p, ast.Compare) and len(p.ops) == 1 and isinstance(p.ops[0], (ast.Gt, ast.GtE, ast.Lt, ast.LtE))):
+            continue
+        folded = [_fold_len(x, defs) for x in (p.left, p.comparators[0])]
+        if not any(isinstance(x, ast.Name) and x.id == 'docs' for f_ in folded for x in ast.walk(f_)):
+            continue
+        if any(isinstance(x, ast.Name) and x.id in ('idx', 'i') for f_ in folded for x in ast.walk(f_)):
+            continue        # a position test inside the element loop
+        n += 1
+        ok = True
+        detail = ''
+        for f_ in folded:
+            if not any(isinstance(x, ast.Name) and x.id == 'docs' for x in ast.walk(f_)):
+                continue
+            try:
+                fm = form(f_)
+                names = set(fm.terms) if isinstance(fm, Lin) else {'?'}
+                if names != {'len(docs)'}:
+                    ok, detail = False, fm.text() if isinstance(fm, Lin) else src(f_)[:80]
+            except (NotLinear, AttributeError):
+                ok, detail = False, src(f_)[:120].replace('\n', ' ')
+        rep.check(ok, rule, 'sequence_of_docs:forced-break-threshold-counts-elements', '%s:%d' % (m.relpath, p.lineno),
+                  'threshold on the number of elements only',
+                  'sequence_of_docs compares %s with a threshold: the decision to force a break looks at the elements themselves, so a sequence '
+                  'that fits on a wide page is broken all the same' % detail, nontrivial=True)
+    return n
 
 
 def _canoniser(fn):
